@@ -153,6 +153,30 @@ def build_harness():
 
 
 def _run_shard(args):
+    """one shard; when the harness reports a case that did not come back (exit status 98, last line
+    `<id> res=3 x_timeout=1`) the shard is restarted after that case, at most three times"""
+    exe, lines, timeout = args
+    out = []
+    rest = lines
+    for attempt in range(4):
+        o, rc = _run_shard_once((exe, rest, timeout))
+        out += o
+        if rc != 98 or not o:
+            return out, rc
+        last = o[-1].split(" ", 1)[0]
+        idx = None
+        for i, ln in enumerate(rest):
+            f = ln.split(" ", 2)
+            if len(f) > 1 and f[1] == last:
+                idx = i
+                break
+        if idx is None or idx + 1 >= len(rest):
+            return out, 0
+        rest = rest[idx + 1:]
+    return out, 98
+
+
+def _run_shard_once(args):
     exe, lines, timeout = args
     try:
         # address-space cap per shard: a runaway implementation (unbounded callbacks / allocation) must fail its own
